@@ -74,6 +74,8 @@ def claimHolds (s : MState) (r : Reg) : AVal → Prop
   | .const c => s.reg r = c
   | .addr l => s.reg r = s.addr l
   | .ors r0 k => s.reg r = s.entry r0 + k
+  -- "current value of register r0 plus k": only ever consumed for r0 = x0 (zero-to-const rule)
+  | .rs r0 k => r0 = 0 → s.reg r = k
   | _ => True
 
 /-- every register claim of the map is true in the state -/
